@@ -393,8 +393,18 @@ def _embedded_helper_call(expr, is_helper):
     if len(found) != 1 or not found[0][4]:
         return None
     parent, fld, idx, call, _u = found[0]
+    # calls that take the helper call as (part of) their receiver or arguments run after it in any case
+    after = set()
+
+    def mark(n, chain):
+        if n is call:
+            after.update(id(x) for x in chain)
+            return
+        for c in ast.iter_child_nodes(n):
+            mark(c, chain + [n])
+    mark(expr, [])
     for n in ast.walk(expr):
-        if isinstance(n, ast.Call) and n is not call:
+        if isinstance(n, ast.Call) and n is not call and id(n) not in after:
             if not (isinstance(n.func, ast.Name) and n.func.id in _PURE and all(_simple_arg(a) or isinstance(a, ast.Subscript) and _simple_arg(a.value) for a in n.args) and not n.keywords):
                 # method calls on plain receivers with plain args (x.get('k'), s.strip()) are tolerated as well
                 if not (isinstance(n.func, ast.Attribute) and _simple_arg(n.func.value) and n.func.attr in ('get', 'strip', 'lower', 'upper', 'startswith', 'endswith', 'exists', 'join', 'isfile', 'isdir')
@@ -575,7 +585,7 @@ def inline_module(tree: ast.Module, known: Set[str]) -> Dict[str, int]:
                             out.extend(block(pre_stmts))
                             out.append(s)
                             continue
-                if c is None and isinstance(s, (ast.If, ast.Return, ast.Assign, ast.Expr)) and not done_flag[0]:
+                if (c is None or lookup(c)[0] is None) and isinstance(s, (ast.If, ast.Return, ast.Assign, ast.Expr)) and not done_flag[0]:
                     # helper call buried in the test / value: computed into a temporary first when that cannot change what is observed
                     hdr = s.test if isinstance(s, ast.If) else s.value
                     if hdr is not None and not (isinstance(hdr, ast.Call) and lookup(hdr)[0] is not None):
